@@ -3,6 +3,7 @@
 Module containing function related to serialization.
 """
 
+import copy
 import json
 from typing import Any, Dict, Union, cast
 
@@ -147,7 +148,9 @@ class JsonSerializable:
         dict
             The dictionary representation of the object.
         """
-        return cast(Dict[str, Any], self._to_dict())
+        # A copy: the dictionary is a snapshot that shares nothing with the
+        # object (changing one later must not change the other)
+        return cast(Dict[str, Any], copy.deepcopy(self._to_dict()))
 
     @staticmethod
     def _from_dict(d: Any) -> Any:
@@ -182,7 +185,8 @@ class JsonSerializable:
         Result
             The converted object.
         """
-        return cls._from_dict(d)
+        # The new object must not share lists, sets or arrays with `d`
+        return cls._from_dict(copy.deepcopy(d))
 
     def to_json(self) -> JsonRepresentation:
         """
